@@ -82,31 +82,39 @@ theorem printE_binary_shape (op : Op) (x y : XExpr) (p d0 : Nat) :
   simp only [printE, wrapI]
   refine ⟨_, _, _, ?_, rfl⟩
   intro hbl
-  have := cutoff_ge (.binary op x y)
-    (if decide (prec op < p) = true then ratAdj y (reduceDepth (ratAdj y d0)) else ratAdj y d0)
-  simp at hbl
-  omega
+  simp only [decide_eq_false_iff_not, Nat.not_lt] at hbl
+  exact Nat.le_trans (cutoff_ge _ _) hbl
 
-/-- What the induction establishes for an item list `l` printed after state `last`. -/
+/-- `l`, printed after state `last`, is sound and leaves state `st`. -/
+def SoundTo (last : Option Tok) (l : List PTok) (st : Option Tok) : Prop :=
+  soundAux last l = true ∧ endState last l = st
+
+/-- What the induction establishes for the items of an expression printed after `last`. -/
 def SoundFrom (last : Option Tok) (l : List PTok) : Prop :=
-  soundAux last l = true ∧ ∃ lt, endState last l = some lt ∧ isEnd lt = true
+  ∃ lt, SoundTo last l (some lt) ∧ isEnd lt = true
 
-theorem soundFrom_single {last : Option Tok} {x : Tok} (hl : okBefore last = true)
-    (hs : isStart x = true) (he : isEnd x = true) : SoundFrom last [.t x] :=
-  ⟨by simp [soundAux, pairLast_before_start hl hs], x, rfl, he⟩
+theorem SoundTo.append {last st st' : Option Tok} {a b : List PTok}
+    (ha : SoundTo last a st) (hb : SoundTo st b st') : SoundTo last (a ++ b) st' :=
+  ⟨by rw [soundAux_append, ha.1, ha.2, hb.1]; rfl, by rw [endState_append, ha.2, hb.2]⟩
 
-/-- Sequencing: `a`, then items `b` whose soundness is known from the end state of `a`. -/
-theorem soundFrom_append {last : Option Tok} {a b : List PTok}
-    (ha : SoundFrom last a)
-    (hb : ∀ lt, isEnd lt = true → SoundFrom (some lt) b) : SoundFrom last (a ++ b) := by
-  obtain ⟨h1, lt, h2, h3⟩ := ha
-  obtain ⟨h4, lt', h5, h6⟩ := hb lt h3
-  refine ⟨by rw [soundAux_append, h1, h2, h4]; rfl, lt', by rw [endState_append, h2, h5], h6⟩
+theorem soundTo_tok {last : Option Tok} {x : Tok} (h : pairLast last x = true) :
+    SoundTo last [.t x] (some x) := ⟨by simp [soundAux, h], rfl⟩
 
-/-- After an expression: a closing / postfix operator token `o`, then nothing. -/
-theorem soundFrom_after {lt : Tok} {o : Op} (hlt : isEnd lt = true) (ho : isAfterOp o = true)
-    (he : isEnd (.op o) = true) : SoundFrom (some lt) [pop o] :=
-  ⟨by simp [soundAux, pop, pairLast, pairOK_end_after hlt ho], .op o, rfl, he⟩
+theorem soundTo_blank (last : Option Tok) : SoundTo last [.blank] none := ⟨rfl, rfl⟩
+theorem soundTo_nil (last : Option Tok) : SoundTo last [] last := ⟨rfl, rfl⟩
+
+theorem soundTo_start {last : Option Tok} {x : Tok} (hl : okBefore last = true)
+    (hs : isStart x = true) : SoundTo last [.t x] (some x) :=
+  soundTo_tok (pairLast_before_start hl hs)
+
+theorem soundTo_after {lt : Tok} {o : Op} (hlt : isEnd lt = true) (ho : isAfterOp o = true) :
+    SoundTo (some lt) [pop o] (some (.op o)) :=
+  soundTo_tok (by simp [pairLast, pairOK_end_after hlt ho])
+
+theorem SoundFrom.then {last st : Option Tok} {a b : List PTok} (ha : SoundFrom last a)
+    (hb : ∀ lt, isEnd lt = true → SoundTo (some lt) b st) : SoundTo last (a ++ b) st := by
+  obtain ⟨lt, h1, h2⟩ := ha
+  exact h1.append (hb lt h2)
 
 theorem soundFrom_wrap {last : Option Tok} {l : List PTok} (b : Bool) (hl : okBefore last = true)
     (h : ∀ last', okBefore last' = true → SoundFrom last' l) : SoundFrom last (wrapI b l) := by
@@ -114,12 +122,187 @@ theorem soundFrom_wrap {last : Option Tok} {l : List PTok} (b : Bool) (hl : okBe
   | false => exact h last hl
   | true =>
     simp only [wrapI, if_true]
-    have h1 : SoundFrom last ([pop .LPAREN] ++ (l ++ [pop .RPAREN])) := by
-      refine soundFrom_append ?_ ?_
-      · exact ⟨by simp [soundAux, pop, pairLast_before_start hl (by rfl : isStart (.op .LPAREN) = true)],
-          .op .LPAREN, rfl, ?_⟩
-        sorry
-      · sorry
-    simpa using h1
+    have h1 : SoundTo last ([pop .LPAREN] ++ (l ++ [pop .RPAREN])) (some (.op .RPAREN)) :=
+      (soundTo_start hl (by rfl)).append
+        ((h (some (.op .LPAREN)) (by rfl)).then (fun lt hlt => soundTo_after hlt (by rfl)))
+    exact ⟨.op .RPAREN, by simpa using h1, rfl⟩
+
+theorem isBefore_unop {o : Op} (h : (isUnaryOp o || o == .ARROW) = true) : isBefore (.op o) = true := by
+  cases o <;> simp [isUnaryOp] at h <;> simp [isBefore, isUnaryOp]
+
+theorem isBefore_binop {o : Op} (h : isBinOp o = true) : isBefore (.op o) = true := by
+  simp [isBefore, h]
+
+theorem pairOK_op_word (o : Op) (s : Str) : pairOK (.op o) (.ident s) = true := by
+  simp [pairOK, combines]
+
+theorem pairOK_ident_op (s : Str) (o : Op) : pairOK (.ident s) (.op o) = true := by
+  simp [pairOK, combines]
+
+theorem pairOK_lit_unit (k : LitKind) (v u : Str) : pairOK (.lit k v) (.unit u) = true := by
+  cases k <;> simp [pairOK, combines]
+
+mutual
+theorem sound_printE : ∀ (e : XExpr), wf e = true → ∀ (p d : Nat) (last : Option Tok),
+    okBefore last = true → SoundFrom last (printE e p d)
+  | .ident s, _, p, d, last, hl => by
+    simp only [printE]; exact ⟨_, soundTo_start hl rfl, rfl⟩
+  | .lit k v, _, p, d, last, hl => by
+    simp only [printE]; exact ⟨_, soundTo_start hl rfl, rfl⟩
+  | .numUnit k v u, _, p, d, last, hl => by
+    simp only [printE]
+    exact ⟨.unit u, (soundTo_start (x := .lit k v) hl rfl).append
+      (soundTo_tok (by simp [pairLast, pairOK_lit_unit])), rfl⟩
+  | .env s b, _, p, d, last, hl => by
+    simp only [printE]
+    cases b
+    · exact ⟨.ident s, (soundTo_start (x := .op .ENV) hl rfl).append
+        (soundTo_tok (by simp [pairLast, pairOK_op_word])), rfl⟩
+    · simp only [if_true]
+      exact ⟨.op .RBRACE, (soundTo_start (x := .op .ENV) hl rfl).append
+        ((soundTo_tok (x := .op .LBRACE) (by decide)).append
+          ((soundTo_tok (x := .ident s) (by simp [pairLast, pairOK_op_word])).append
+            (soundTo_tok (x := .op .RBRACE) (by simp [pairLast, pairOK_ident_op])))), rfl⟩
+  | .binary op x y, h, p, d, last, hl => by
+    have h' := h
+    simp only [wf, Bool.and_eq_true] at h'
+    obtain ⟨⟨hop, hx⟩, hy⟩ := h'
+    obtain ⟨d1, d2, bl, hbl, heq⟩ := printE_binary_shape op x y p d
+    rw [heq]
+    refine soundFrom_wrap _ hl (fun last' hl' => ?_)
+    have ihx := sound_printE x hx (prec op) d1 last' hl'
+    simp only [List.append_assoc]
+    cases bl with
+    | true =>
+      obtain ⟨lty, hy1, hy2⟩ := sound_printE y hy (prec op + 1) d2 none rfl
+      exact ⟨lty, ihx.then (fun lt _ => (soundTo_blank _).append
+        ((soundTo_tok (x := .op op) rfl).append ((soundTo_blank _).append hy1))), hy2⟩
+    | false =>
+      obtain ⟨lty, hy1, hy2⟩ := sound_printE y hy (prec op + 1) d2 (some (.op op)) (isBefore_binop hop)
+      exact ⟨lty, ihx.then (fun lt hlt => (soundTo_nil _).append
+        ((soundTo_tok (x := .op op) (by
+          have h4 : 4 ≤ prec op := hbl rfl
+          simp [pairLast, pairOK_end_binop hlt hop h4])).append ((soundTo_nil _).append hy1))), hy2⟩
+  | .unary op x, h, p, d, last, hl => by
+    have h' := h
+    simp only [wf, Bool.and_eq_true] at h'
+    obtain ⟨hop, hx⟩ := h'
+    simp only [printE]
+    split
+    · obtain ⟨lt, h1, h2⟩ := sound_printE x hx unaryPrec 1 (some (.op op)) (isBefore_unop hop)
+      have := (soundTo_start (x := .op .LPAREN) hl rfl).append
+        ((soundTo_tok (x := .op op) (pairLast_before_start (last := some (.op .LPAREN)) rfl (isStart_unop hop))).append
+          (h1.append (soundTo_after h2 (o := .RPAREN) rfl)))
+      exact ⟨.op .RPAREN, by simpa [pop] using this, rfl⟩
+    · obtain ⟨lt, h1, h2⟩ := sound_printE x hx unaryPrec d (some (.op op)) (isBefore_unop hop)
+      have := (soundTo_start (x := .op op) hl (isStart_unop hop)).append h1
+      exact ⟨lt, by simpa [pop] using this, h2⟩
+  | .star x, h, p, d, last, hl => by
+    have hx : wf x = true := by simpa [wf] using h
+    simp only [printE]
+    obtain ⟨lt, h1, h2⟩ := sound_printE x hx unaryPrec 1 (some (.op .MUL)) (by rfl)
+    split
+    · have := (soundTo_start (x := .op .LPAREN) hl rfl).append
+        ((soundTo_tok (x := .op .MUL) (by decide)).append
+          (h1.append (soundTo_after h2 (o := .RPAREN) rfl)))
+      exact ⟨.op .RPAREN, by simpa [pop] using this, rfl⟩
+    · have := (soundTo_start (x := .op .MUL) hl rfl).append h1
+      exact ⟨lt, by simpa [pop] using this, h2⟩
+  | .paren x, h, p, d, last, hl => by
+    have hx : wf x = true := by simpa [wf] using h
+    simp only [printE]
+    split
+    · exact sound_printE x hx lowestPrec d last hl
+    · exact soundFrom_wrap true hl (fun last' hl' => sound_printE x hx lowestPrec (reduceDepth d) last' hl')
+  | .selector x s, h, p, d, last, hl => by
+    have hx : wf x = true := by simpa [wf] using h
+    simp only [printE]
+    exact ⟨.ident s, (sound_printE x hx highestPrec d last hl).then (fun lt hlt =>
+      (soundTo_after hlt (o := .PERIOD) rfl).append
+        (soundTo_tok (x := .ident s) (by simp [pairLast, pairOK_op_word]))), rfl⟩
+  | .index x i, h, p, d, last, hl => by
+    have h' : wf x = true ∧ wf i = true := by simpa [wf] using h
+    simp only [printE, List.append_assoc]
+    obtain ⟨lti, hi1, hi2⟩ := sound_printE i h'.2 lowestPrec (d + 1) (some (.op .LBRACK)) (by rfl)
+    exact ⟨.op .RBRACK, (sound_printE x h'.1 highestPrec 1 last hl).then (fun lt hlt =>
+      (soundTo_after hlt (o := .LBRACK) rfl).append (hi1.append (soundTo_after hi2 (o := .RBRACK) rfl))), rfl⟩
+  | .call f args ell cmd, h, p, d, last, hl => by
+    have h' := h
+    simp only [wf, Bool.and_eq_true, Bool.not_eq_true', Bool.or_eq_true, List.isEmpty_eq_false_iff] at h'
+    obtain ⟨⟨⟨hc, hf⟩, hargs⟩, hell⟩ := h'
+    subst hc
+    simp only [printE, List.append_assoc, Bool.false_eq_true, if_false]
+    have ihf := sound_printE f hf highestPrec (if args.length > 1 then d + 1 else d) last hl
+    cases args with
+    | nil =>
+      have he : ell = false := by
+        rcases hell with h1 | h1
+        · exact h1
+        · exact absurd rfl h1
+      subst he
+      simp only [printL, Bool.false_eq_true, if_false, List.nil_append]
+      exact ⟨.op .RPAREN, ihf.then (fun lt hlt => (soundTo_after hlt (o := .LPAREN) rfl).append
+        (soundTo_tok (x := .op .RPAREN) (by decide))), rfl⟩
+    | cons a as =>
+      obtain ⟨ltl, hl1, hl2⟩ := sound_printL (a :: as) hargs (by simp)
+        (if (a :: as).length > 1 then d + 1 else d) (some (.op .LPAREN)) (by rfl)
+      cases ell with
+      | false =>
+        simp only [Bool.false_eq_true, if_false, List.nil_append]
+        exact ⟨.op .RPAREN, ihf.then (fun lt hlt => (soundTo_after hlt (o := .LPAREN) rfl).append
+          (hl1.append (soundTo_after hl2 (o := .RPAREN) rfl))), rfl⟩
+      | true =>
+        simp only [if_true]
+        exact ⟨.op .RPAREN, ihf.then (fun lt hlt => (soundTo_after hlt (o := .LPAREN) rfl).append
+          (hl1.append ((soundTo_after hl2 (o := .ELLIPSIS) rfl).append
+            (soundTo_tok (x := .op .RPAREN) (by decide))))), rfl⟩
+  | .errWrap x tok none, h, p, d, last, hl => by
+    obtain ⟨htok, hx⟩ := wf_errWrap_none h
+    simp only [printE, isSome', Bool.false_and, Bool.false_eq_true, if_false, List.append_nil]
+    rcases htok with rfl | rfl
+    · exact ⟨.op .NOT, (sound_printE x hx highestPrec 1 last hl).then
+        (fun lt hlt => soundTo_after hlt (o := .NOT) rfl), rfl⟩
+    · exact ⟨.op .QUESTION, (sound_printE x hx highestPrec 1 last hl).then
+        (fun lt hlt => soundTo_after hlt (o := .QUESTION) rfl), rfl⟩
+  | .errWrap x tok (some dd), h, p, d, last, hl => by
+    obtain ⟨htok, hx, hd⟩ := wf_errWrap_some h
+    simp only [printE, isSome', Bool.true_and]
+    refine soundFrom_wrap (decide (unaryPrec < p)) hl (fun last' hl' => ?_)
+    simp only [List.append_assoc]
+    obtain ⟨ltd, hd1, hd2⟩ := sound_printE dd hd unaryPrec 1 (some (.op .COLON)) (by rfl)
+    have hcol : SoundTo (some (.op tok)) (pop .COLON :: printE dd unaryPrec 1) (some ltd) := by
+      have := (soundTo_tok (last := some (.op tok)) (x := .op .COLON) (by
+        rcases htok with rfl | rfl <;> decide)).append hd1
+      simpa [pop] using this
+    rcases htok with rfl | rfl
+    · exact ⟨ltd, (sound_printE x hx highestPrec 1 last' hl').then
+        (fun lt hlt => (soundTo_after hlt (o := .NOT) rfl).append hcol), hd2⟩
+    · exact ⟨ltd, (sound_printE x hx highestPrec 1 last' hl').then
+        (fun lt hlt => (soundTo_after hlt (o := .QUESTION) rfl).append hcol), hd2⟩
+  | .slice .., h, _, _, _, _ => by simp [wf] at h
+  | .composite .., h, _, _, _, _ => by simp [wf] at h
+  | .kv .., h, _, _, _, _ => by simp [wf] at h
+  | .sliceLit .., h, _, _, _, _ => by simp [wf] at h
+  | .lambda .., h, _, _, _, _ => by simp [wf] at h
+  | .typeAssert .., h, _, _, _, _ => by simp [wf] at h
+  | .range .., h, _, _, _, _ => by simp [wf] at h
+  | .tuple .., h, _, _, _, _ => by simp [wf] at h
+  | .bad, h, _, _, _, _ => by simp [wf] at h
+theorem sound_printL : ∀ (l : List XExpr), wfL l = true → l ≠ [] → ∀ (d : Nat) (last : Option Tok),
+    okBefore last = true → SoundFrom last (printL l d)
+  | [], _, hne, _, _, _ => absurd rfl hne
+  | [e], h, _, d, last, hl => by
+    have he : wf e = true := by simpa [wfL] using h
+    simp only [printL]
+    exact sound_printE e he lowestPrec d last hl
+  | e :: e2 :: rest, h, _, d, last, hl => by
+    have h' := h
+    simp only [wfL, Bool.and_eq_true] at h'
+    have hrest : wfL (e2 :: rest) = true := by simp only [wfL, Bool.and_eq_true]; exact h'.2
+    simp only [printL, List.append_assoc]
+    obtain ⟨ltl, hl1, hl2⟩ := sound_printL (e2 :: rest) hrest (by simp) d none rfl
+    exact ⟨ltl, (sound_printE e h'.1 lowestPrec d last hl).then (fun lt hlt =>
+      (soundTo_after hlt (o := .COMMA) rfl).append ((soundTo_blank _).append hl1)), hl2⟩
+end
 
 end GopModel.ExprSyntax
